@@ -648,6 +648,8 @@ def check_spectra(chk, ctx, ds, dd, entries_oracle, model_entries, pop_names_all
         spectrum_clauses(chk, fs, fs_nomask, ref, usable, names, proj, pol, mc, tag, inp, '')
         chk.stat('cfg:npop=%d' % len(sel)); chk.stat('cfg:polarized=%s' % pol); chk.stat('cfg:usable=%s' % ('none' if usable == 0 else 'all' if usable == len(entries_oracle) else 'some'))
         chk.stat('cfg:corner-entries=%s' % ('populated' if populated else 'empty'))
+        # ---- the statistics, on the very objects whose clauses were just evaluated: method by method (each must leave the object alone) ...
+        check_pure(chk, ds, fs_nomask, at, tag + ':nomask'); check_pure(chk, ds, fs, at, tag)
         # ---- K
         if have_driver(ctx) and model_entries is not None:
             sub = [dict(e, calls=[e['calls'][p] for p in sel]) for e in model_entries]
@@ -658,22 +660,23 @@ def check_spectra(chk, ctx, ds, dd, entries_oracle, model_entries, pop_names_all
                 if int(toks[2]) != usable or Fraction(toks[3]) != usable:
                     kbad(chk, 'spec:usable', ds, usable, toks[2:4], None, at)
             check_stats(chk, ctx, ds, fs, w, pol, proj, at)
-        # ---- the statistics, on the very objects whose clauses were just evaluated ...
+        # ---- ... all of them in a row, with the values independent of whether the corner entries are masked ...
         va = stat_values(fs); vb = stat_values(fs_nomask)
         bad = values_agree(va, vb)
         if bad:
             chk.fail('stats:depend-on-corner-mask:%s' % '+'.join(bad), 'statistics of the same data differ between mask_corners=%s and mask_corners=False: %r vs %r' % (mc, va, vb), inp)
-        check_pure(chk, ds, fs, at, tag); check_pure(chk, ds, fs_nomask, at, tag + ':nomask')
-        check_mask_after_S(chk, ctx, ds, fs_nomask, pol, False, proj, at)
+        check_mask_after_S(chk, ctx, ds, fs_nomask, proj, at); check_mask_after_S(chk, ctx, ds, fs, proj, at)
         # ---- ... and the clauses again
         spectrum_clauses(chk, fs, fs_nomask, ref, usable, names, proj, pol, mc, tag, inp, ':after-statistics')
 
-def check_mask_after_S(chk, ctx, ds, fs, pol, mc, proj, at):
-    """K for the state left behind by `S` (generated statement list `sBody` run by the model's `sRun`)"""
+def check_mask_after_S(chk, ctx, ds, fs, proj, at):
+    """K for the state left behind by `S`: mask before -> mask after, implementation vs the generated statement list `sBody`
+    run by the model's `sRun`"""
     if not have_driver(ctx): return
+    before = np.array(np.ma.getmaskarray(fs), copy=True)
     call_quiet(fs, 'S')
-    out = ask(ctx, 'sstate %d %d %s' % (pol, mc, ','.join(map(str, proj))))
     imask = np.asarray(np.ma.getmaskarray(fs))
+    out = ask(ctx, 'sstate %s %s' % (','.join(map(str, proj)), common.fmt_nd(before.astype(int))))
     if out.startswith('ok '):
         mmask = nd_float(out[3:].strip()).astype(bool)
         if mmask.shape == imask.shape and np.array_equal(mmask, imask): chk.k_ok('sstate')
